@@ -11,7 +11,7 @@ import (
 
 func init() {
 	register("C07", runC07, propMeta{
-		Explanation: "Decides the three structural conditions that make a hot update atomic per execution and visible to every later execution, for all interleavings: (U1) each of the 21 Gengine.Execute* methods reads the published container rb.Kc exactly once, in its own body, before any rule runs or goroutine starts, and uses that snapshot throughout; (U2) nothing writes into a container that may already be published: every field store, map update, element store or in-place append that reaches KnowledgeContext memory acts on a container the same function just created with NewKnowledgeContext (the listener fills the one it was constructed with, and every construction site passes a fresh one), and compiled RuleEntity / AST node fields are written only by the listener and the Accept*/New* functions; (U3) UpdatePooledRules, UpdatePooledRulesIncremental and ClearPoolRules store the master's new container (or a fresh empty one) into gp.rbSlice[i].Kc for i counted from 0 by 1 up to gp.max before any successful return, RemoveRules applies the removal to every element of gp.rbSlice, and len(rbSlice) == max by construction; (U4) every store to RuleBuilder.Kc, gp.ruleBuilder, gp.clear and gp.execModel in the pool holds updateLock (directly, or in a helper all of whose callers hold it), builder-side stores hold buildLock; (U5) no store to installed state can be followed by an error return (compile before publish); (U6) no pool lock is held while rules run, so an update called from inside a rule cannot deadlock on its own request. (U7) the engine object hands no compiled rules from one call to the next: a field of Gengine that holds rules may be read only under a comparison of a kept KnowledgeContext pointer with this call's container. Together: an execution uses one container that nobody mutates, and an update returns only after every instance points at the new one. Not decided: memory-model visibility of the plain pointer store without synchronisation — reported as known finding D12(c) under C19. A container overwritten as a whole through a pointer (*own = *kc) counts as a write into published memory. prepare* bind gw.rulebuilder = gp.rbSlice[gw.tag] on every request, so an execution runs on the builder the update published into (U8).",
+		Explanation: "Decides the three structural conditions that make a hot update atomic per execution and visible to every later execution, for all interleavings: (U1) each of the 21 Gengine.Execute* methods reads the published container rb.Kc exactly once, in its own body, before any rule runs or goroutine starts, and uses that snapshot throughout; (U2) nothing writes into a container that may already be published: every field store, map update, element store or in-place append that reaches KnowledgeContext memory acts on a container the same function just created with NewKnowledgeContext (the listener fills the one it was constructed with, and every construction site passes a fresh one), and compiled RuleEntity / AST node fields are written only by the listener and the Accept*/New* functions; (U3) UpdatePooledRules, UpdatePooledRulesIncremental and ClearPoolRules store the master's new container (or a fresh empty one) into gp.rbSlice[i].Kc for i counted from 0 by 1 up to gp.max before any successful return, RemoveRules applies the removal to every element of gp.rbSlice, and len(rbSlice) == max by construction; (U4) every store to RuleBuilder.Kc, gp.ruleBuilder, gp.clear and gp.execModel in the pool holds updateLock (directly, or in a helper all of whose callers hold it), builder-side stores hold buildLock; (U5) no store to installed state can be followed by an error return (compile before publish); (U6) no pool lock is held while rules run, so an update called from inside a rule cannot deadlock on its own request. (U7) the engine object hands no compiled rules from one call to the next: a field of Gengine that holds rules may be read only under a comparison of a kept KnowledgeContext pointer with this call's container. Together: an execution uses one container that nobody mutates, and an update returns only after every instance points at the new one. Not decided: memory-model visibility of the plain pointer store without synchronisation — reported as known finding D12(c) under C19. A container overwritten as a whole through a pointer (*own = *kc) counts as a write into published memory. prepare* bind gw.rulebuilder = gp.rbSlice[gw.tag] on every request, so an execution runs on the builder the update published into (U8). (U9) the pool's selected methods hand the names on as given; the engine method resolves them in the container it took.",
 		Assumptions: []string{"an execution only reaches rule data through the container it loaded (no other path to rules exists: checked by U1's single read)"},
 		Trusted:     commonTrusted,
 	})
